@@ -34,7 +34,10 @@ func (generator *chunkIDGenerator) Generate() string {
 	} else {
 		generator.sequence++
 	}
+	// the sequence number belongs to the epoch, not to the new reading: if the wall clock repeats or steps backwards,
+	// ids formatted with the reading would go backwards or repeat
+	nextEpoch := generator.epochNano
 	nextSequence := generator.sequence
 	generator.Unlock()
-	return fmt.Sprintf("%019d-%08d"+generator.suffix, nextTimestamp, nextSequence)
+	return fmt.Sprintf("%019d-%08d"+generator.suffix, nextEpoch, nextSequence)
 }
